@@ -125,8 +125,11 @@ PRun(p, c, v, k) ==
   ELSE PRun(PStep1(p, c, v), c, v, k - 1)
 
 RECURSIVE PFold(_, _)
+\* (TLC passes operator arguments lazily: the test on q.pos forces every step before the next one,
+\*  otherwise the whole item list becomes one chain of thunks evaluated at the very end)
 PFold(p, items) == IF items = <<>> THEN p
-                   ELSE PFold(PRun(p, Head(items).c, Head(items).v, Head(items).k), Tail(items))
+                   ELSE LET q == PRun(p, Head(items).c, Head(items).v, Head(items).k)
+                        IN IF q.pos >= 0 THEN PFold(q, Tail(items)) ELSE q
 
 \* verdict of the input seen so far, taken as the whole input
 PV(p) == [v    |-> IF p.ph = "DONE" THEN "accept" ELSE IF p.ph = "DEAD" THEN "reject" ELSE "incomplete",
@@ -195,7 +198,8 @@ MRun(m, c, v, k) ==
 
 RECURSIVE MFold(_, _)
 MFold(m, items) == IF items = <<>> THEN m
-                   ELSE MFold(MRun(m, Head(items).c, Head(items).v, Head(items).k), Tail(items))
+                   ELSE LET q == MRun(m, Head(items).c, Head(items).v, Head(items).k)
+                        IN IF q.pos >= 0 THEN MFold(q, Tail(items)) ELSE q
 
 MV(m) == [v |-> IF m.ph = "DONE" THEN "accept" ELSE IF m.ph = "ERR" THEN "reject" ELSE "incomplete",
           segs |-> m.segs, cons |-> m.cons]
